@@ -177,7 +177,7 @@ pub fn generate(ctx: &mut Ctx) {
         }
         bi += 1;
     }
-    let n = ctx.by_tier(100_000u64, 1_200_000u64) / ctx.nshards;
+    let n = ctx.by_tier(100_000u64, 4_000_000u64) / ctx.nshards;
     for i in 0..n {
         let mut rng = ctx.rng("pairs", i);
         let mut o = gen::Opts::new(rng.chance(1, 2));
